@@ -59,46 +59,126 @@ def run(c, prog):
         c.violation(R, "identity|literal", f"Matrix3::identity() is not the literal unit matrix (read {idrows})", ident.sp)
     else:
         c.ok(R, "identity")
-    # --- constants of the formula: (A * x_id) + y_id + B
-    A = B = None
-    for st in to.body["b"]["stmts"]:
-        if st["k"] == "Let" and st["pat"].get("name") == "basic_rotation_id":
-            e = core.strip(st["init"])
-            # ((A * x_id) + y_id) + B   in any association / operand order
-            consts, muls = [], []
+    # --- the id formula, by data flow: the value handed to Some(..) / then_some(..) is a polynomial A*n1 + n2 + B over
+    # locals n_k = <vector>.to_normal_id()?, and each vector is a row/column of `self` (directly, through transpose(), or
+    # spelled out component-wise).  Local names, hoisting and operand order are irrelevant.
+    from sa import algebra
+    from sa.algebra import Poly, NotAffine
+    lets = {st["pat"]["lid"]: st["init"] for st in core.walk_lets(to.body) if st["pat"].get("k") == "Binding" and "init" in st}
+    self_lid = to.params[0]["lid"]
+    tr_fn = prog.fn(M3 + "::transpose")
+    AX = ("x", "y", "z")
 
-            def flat(n):
-                n = core.strip(n)
-                if n.get("k") == "Binary" and n["op"] == "+":
-                    flat(n["l"]); flat(n["r"])
-                elif n.get("k") == "Binary" and n["op"] == "*":
-                    l, r = core.strip(n["l"]), core.strip(n["r"])
-                    lv, rv = core.lit_value(l), core.lit_value(r)
-                    if lv is not None and r.get("name") == "x_id":
-                        muls.append(lv)
-                    elif rv is not None and l.get("name") == "x_id":
-                        muls.append(rv)
-                    else:
-                        consts.append(None)
-                elif n.get("k") == "Lit":
-                    consts.append(core.lit_value(n))
-                elif n.get("name") == "y_id":
-                    pass
-                else:
-                    consts.append(None)
-            flat(e)
-            if len(muls) == 1 and len(consts) == 1 and consts[0] is not None:
-                A, B = muls[0], consts[0]
+    def untry(e):
+        e = core.strip(e)
+        t = core.as_try(e)
+        while t is not None:
+            e = core.strip(t)
+            t = core.as_try(e)
+        return e
+
+    def mat_of(e, depth=0):
+        """('self'|'cand', transposed?) for a matrix-valued expression"""
+        e = untry(e)
+        if depth > 6:
+            return None
+        if e.get("k") == "Path" and e.get("res") == "local":
+            if e["lid"] == self_lid:
+                return ("self", False)
+            if e["lid"] in lets:
+                return mat_of(lets[e["lid"]], depth + 1)
+            return None
+        if e.get("k") == "MethodCall":
+            if core.callee(e) == M3 + "::transpose":
+                m0 = mat_of(e["recv"], depth + 1)
+                return (m0[0], not m0[1]) if m0 else None
+            if e["m"] in ("ok", "unwrap", "expect", "clone", "as_ref"):
+                return mat_of(e["recv"], depth + 1)
+        if e.get("k") == "Call" and core.callee(e) == M3 + "::from_basic_rotation_id":
+            return ("cand", False)
+        if e.get("k") in ("AddrOf", "Unary"):
+            return mat_of(e["e"], depth + 1)
+        return None
+
+    def comp_of(e):
+        """(base, row, col) for a scalar component expression `m.r.c`"""
+        e = untry(e)
+        if e.get("k") == "Field" and e["f"] in AX:
+            inner = untry(e["e"])
+            if inner.get("k") == "Field" and inner["f"] in AX:
+                m0 = mat_of(inner["e"])
+                if m0:
+                    r, cc = inner["f"], e["f"]
+                    return (m0[0], cc, r) if m0[1] else (m0[0], r, cc)
+        return None
+
+    def vec_of(e, depth=0):
+        """(base, [(row, col) x3]) for a Vector3-valued expression"""
+        e = untry(e)
+        if depth > 6:
+            return None
+        if e.get("k") == "Path" and e.get("res") == "local" and e["lid"] in lets:
+            return vec_of(lets[e["lid"]], depth + 1)
+        if e.get("k") == "Field" and e["f"] in AX:
+            m0 = mat_of(e["e"])
+            if m0:
+                f = e["f"]
+                return (m0[0], [(a, f) for a in AX]) if m0[1] else (m0[0], [(f, a) for a in AX])
+        if e.get("k") == "Call" and e["f"].get("def") == V3 + "::new" and len(e["args"]) == 3:
+            cs = [comp_of(a) for a in e["args"]]
+            if all(cs) and len({x[0] for x in cs}) == 1:
+                return (cs[0][0], [(x[1], x[2]) for x in cs])
+        if e.get("k") in ("AddrOf", "Unary"):
+            return vec_of(e["e"], depth + 1)
+        return None
+
+    def nid_vec(e):
+        e = untry(e)
+        if e.get("k") == "MethodCall" and core.callee(e) == V3 + "::to_normal_id":
+            return vec_of(e["recv"])
+        return None
+    nid_locals = {lid: nid_vec(init) for lid, init in lets.items() if nid_vec(init) is not None}
+
+    def column(base, k):
+        return (base, [(a, k) for a in AX])
+    env = {}
+    for lid in nid_locals:
+        env[lid] = Poly.sym(f"n{lid}")
+
+    def ev(e, depth=0):
+        e0 = core.strip(e)
+        if e0.get("k") == "Path" and e0.get("res") == "local" and e0["lid"] not in env and e0["lid"] in lets and depth < 6:
+            env[e0["lid"]] = ev(lets[e0["lid"]], depth + 1)
+        return algebra.poly_eval(e, env)
+    results = []
+    for n in core.walk_fn(to):
+        if n.get("k") == "Call" and n["f"].get("def") == "core::option::Option::Some" and n["args"]:
+            results.append(n["args"][0])
+        if n.get("k") == "MethodCall" and n["m"] in ("then_some",) and n["args"]:
+            results.append(n["args"][0])
+    A = B = None
+    x_src = y_src = None
+    for rnode in results:
+        try:
+            # make sure the lets feeding the result are evaluated
+            for x in core.walk(rnode):
+                if x.get("k") == "Path" and x.get("res") == "local" and x["lid"] in lets and x["lid"] not in env:
+                    env[x["lid"]] = ev(lets[x["lid"]])
+            pl = algebra.poly_eval(rnode, env)
+        except NotAffine:
+            continue
+        syms = {m[0]: v for m, v in pl.d.items() if len(m) == 1}
+        if len(syms) == 2 and all(len(m) <= 1 for m in pl.d) and 1 in syms.values():
+            (s1, v1), (s2, v2) = sorted(syms.items(), key=lambda kv: -kv[1])
+            if v2 == 1 and v1 > 1:
+                A, B = v1, pl.d.get((), 0)
+                x_src, y_src = nid_locals[int(s1[1:])], nid_locals[int(s2[1:])]
     if A is None:
-        raise core.AnchorMissing("to_basic_rotation_id: formula `(A * x_id) + y_id + B` not recognised")
-    # x_id / y_id come from transpose.x / transpose.y  (columns of the matrix)
-    roles = {}
-    for st in to.body["b"]["stmts"]:
-        if st["k"] == "Let" and st["pat"].get("name") in ("x_id", "y_id", "z_id"):
-            root, path = core.place_root(st["init"])
-            roles[st["pat"]["name"]] = (root, [p for p in path if not p.startswith(".") and p != "?"])
-    if roles.get("x_id") != ("transpose", ["x"]) or roles.get("y_id") != ("transpose", ["y"]):
-        raise core.AnchorMissing(f"to_basic_rotation_id: x_id/y_id are not the normal ids of transpose.x/transpose.y ({roles})")
+        raise core.AnchorMissing("to_basic_rotation_id: the returned id is not of the form A*nid(u) + nid(v) + B over two to_normal_id() results")
+    if x_src != column("self", "x") or y_src != column("self", "y"):
+        c.violation(R, "to_basic|columns", f"to_basic_rotation_id computes the id from {x_src} and {y_src}; the table of from_basic_rotation_id is indexed by the normal ids of the matrix's x and y *columns*", to.sp, instance="to_basic_rotation_id:columns")
+    else:
+        c.ok(R, "to_basic_rotation_id:columns")
     # transpose(): x = (x.x, y.x, z.x) ...
     tr = prog.fn(M3 + "::transpose")
     tb = core.strip(tr.body)
@@ -203,22 +283,35 @@ def run(c, prog):
 
     # --- the third axis: the id is derived from columns x and y only, so the z column must be compared with the candidate's
     ok = False
-    zl = None
-    for st in core.walk_lets(to.body):
-        if st["pat"].get("name") == "z_id":
-            zl = st["pat"]["lid"]
     for n in core.walk_fn(to):
-        if n.get("k") == "If":
-            cnd = core.strip(n["c"])
-            if cnd.get("k") == "Binary" and cnd["op"] == "==":
-                sides = [core.strip(cnd["l"]), core.strip(cnd["r"])]
-                uses_z = any(x.get("lid") == zl for sd in sides for x in core.walk(sd)) and zl is not None
-                cand = any(x.get("k") == "Call" and (core.callee(x) or "").endswith("Matrix3::from_basic_rotation_id") for sd in sides for x in core.walk(sd))
-                fp = " ".join(core.fingerprint(sd, 8) for sd in sides)
-                if uses_z and cand and ".z" in fp and "to_normal_id" in fp:
-                    t_some = any(x.get("k") == "Call" and x["f"].get("def") == "core::option::Option::Some" for x in core.walk(n["t"]))
-                    f_none = "f" in n and any(x.get("k") == "Path" and x.get("def") == "core::option::Option::None" for x in core.walk(n["f"]))
-                    ok = t_some and f_none
+        if n.get("k") == "Binary" and n["op"] == "==":
+            vs = []
+            for sd in (n["l"], n["r"]):
+                sd0 = core.strip(sd)
+                v = None
+                if sd0.get("k") == "Path" and sd0.get("res") == "local" and sd0.get("lid") in nid_locals:
+                    v = nid_locals[sd0["lid"]]
+                else:
+                    v = nid_vec(sd)
+                vs.append(v)
+            if None in vs:
+                continue
+            if sorted(vs, key=lambda v: v[0]) == [column("cand", "z"), column("self", "z")]:
+                # the comparison decides between Some(id) and None
+                for m in core.walk_fn(to):
+                    if m.get("k") == "If" and any(x is n for x in core.walk(m["c"])):
+                        t_some = any(x.get("k") == "Call" and x["f"].get("def") == "core::option::Option::Some" for x in core.walk(m["t"]))
+                        f_none = "f" in m and any(x.get("k") == "Path" and x.get("def") == "core::option::Option::None" for x in core.walk(m["f"]))
+                        ok = ok or (t_some and f_none)
+                    if m.get("k") == "MethodCall" and m["m"] in ("then_some", "then") and any(x is n for x in core.walk(m["recv"])):
+                        ok = True
+    # the candidate is the rotation for the id being returned
+    if ok:
+        cand_args = [x["args"][0] for x in core.walk_fn(to) if x.get("k") == "Call" and core.callee(x) == M3 + "::from_basic_rotation_id" and x["args"]]
+        try:
+            ok = bool(cand_args) and all(algebra.poly_eval(a, env) == algebra.poly_eval(results[0], env) for a in cand_args)
+        except NotAffine:
+            ok = False
     if ok:
         c.ok(R, "to_basic_rotation_id:third-axis-check")
     else:
